@@ -77,7 +77,7 @@ def judge(case, res, cached, again, rows_before, rows_after):
     ids = obs.ids
     v = []
     labels = []
-    if res["status"] == "deadlock":
+    if res["status"] in ("deadlock", "livelock"):
         return [], ["deadlock_ignored_here"], False, obs.brief()
     T = case["target"]
     clo = model.closure(case, T)
